@@ -68,6 +68,18 @@ type Options struct {
 // original: every writer starts from its own copy of the defaults.
 func (o *Options) clone() *Options {
 	c := *o
+	if o.RenderOptions != nil {
+		ro := *o.RenderOptions
+		c.RenderOptions = &ro
+	}
+	if o.SerializeOptions != nil {
+		so := *o.SerializeOptions
+		c.SerializeOptions = &so
+	}
+	if o.StoreOptions != nil {
+		st := *o.StoreOptions
+		c.StoreOptions = &st
+	}
 	c.formatOptions = make(map[string]interface{}, len(o.formatOptions))
 	for k, v := range o.formatOptions {
 		c.formatOptions[k] = v
